@@ -19,7 +19,8 @@ from .runner import Check, OUT
 import dynetx.algorithms as al  # noqa: E402
 
 CFGS = {
-    "quick": ["MC_paths_u3.cfg", "MC_paths_loops.cfg"],
+    # u3t4_gen: 3 nodes x 4 instants (pairs with several runs, non-first runs of more than one instant), generation only
+    "quick": ["MC_paths_u3.cfg", "MC_paths_loops.cfg", "MC_paths_u3t4_gen.cfg"],
     "thorough": ["MC_paths_u3.cfg", "MC_paths_u3t4.cfg", "MC_paths_d3.cfg", "MC_paths_loops.cfg", "MC_paths_sparse4.cfg"],
 }
 PLABS = ["int", "zero", "str", "neg", "big", "under", "tuple", "mixed", "npt", "cross0"]
@@ -231,7 +232,7 @@ def run(prop, tier, seed):
         graphs = _graphs(chk, cfg)
         nodes = sorted({n for _, tr in graphs for (a, b, _) in tr for n in (a, b)}) or [1, 2, 3]
         if tier == "quick":
-            graphs = rng.sample(graphs, min(len(graphs), 220))
+            graphs = rng.sample(graphs, min(len(graphs), 220 if "gen" not in cfg else 120))
         elif len(graphs) > 5000:
             graphs = rng.sample(graphs, 2500)       # the 4-node sparse domain: TLC checks all 15,625, 2,500 are replayed
         for i, (directed, triples) in enumerate(graphs):
